@@ -1644,7 +1644,7 @@ def max(*s):
     """
 
     try: return builtins.max(*s)
-    except NotImplementedError:
+    except (NotImplementedError, TypeError):
         f = _function()
         try: 
             f._cvxterms = [_minmax('max',*s)]
@@ -1684,7 +1684,7 @@ def min(*s):
     """
 
     try: return builtins.min(*s)
-    except NotImplementedError:
+    except (NotImplementedError, TypeError):
         f = _function()
         try: 
             f._ccvterms = [_minmax('min',*s)]
